@@ -1,6 +1,6 @@
 (* Props/C20.v — validation decides the code conditions exactly. *)
 From Coq Require Import Arith List Bool Lia.
-From QV Require Import Core.Bits Core.Pauli Core.Symp Core.Code Core.CodeP.
+From QV Require Import Core.Bits Core.Pauli Core.Symp Core.Code Core.CodeP Core.CodeNd.
 Import ListNotations.
 
 (* binary-matrix level: any matrices, any number of logical rows *)
@@ -52,6 +52,15 @@ Theorem c20_corruption : forall c pre s post d p,
   validate (mkCode (pre ++ xorv s d :: post) (lxs c) (lzs c)) <> VOk.
 Proof. exact corrupt_stabilizer_detected. Qed.
 
+(* presentation: operators returned as 1-d vectors ("numpy.array (1d or 2d)") are the one-row matrices;
+   validate follows NumPy's shapes (scalar / vector / matrix products) and decides the same conditions *)
+Theorem c20_presentation_1d : forall S X Z, validate_nd S X Z = validate (code_nd S X Z).
+Proof. exact validate_nd_eq. Qed.
+
+(* the evaluation order used by the engine on large codes (halves swapped once per row) is the same function *)
+Theorem c20_validate_fast : forall c, validate_fast c = validate c.
+Proof. exact validate_fast_eq. Qed.
+
 (* non-vacuity: the five-qubit code validates; swapping a logical pair does not *)
 Definition five := code_of [[pX;pZ;pZ;pX;pI]; [pI;pX;pZ;pZ;pX]; [pX;pI;pX;pZ;pZ]; [pZ;pX;pI;pX;pZ]] [[pX;pX;pX;pX;pX]] [[pZ;pZ;pZ;pZ;pZ]].
 Example c20_ex_five : validate five = VOk /\
@@ -62,3 +71,4 @@ Proof. vm_compute. auto. Qed.
 Print Assumptions c20_validate_iff_matrix. Print Assumptions c20_validate_iff_canonical.
 Print Assumptions c20_validate_iff. Print Assumptions c20_first_failure.
 Print Assumptions c20_logicals_order. Print Assumptions c20_decode_result. Print Assumptions c20_corruption.
+Print Assumptions c20_presentation_1d. Print Assumptions c20_validate_fast.
